@@ -120,13 +120,42 @@ Fixpoint check_flushes (sns : list snapshot) (fs : list flushobs) : bool :=
   | _, _ => false
   end.
 
+(* register futures bound by measurements (at any depth) in each flush block *)
+Fixpoint regs_stmt (s : stmt) : list nat :=
+  match s with
+  | SMeasReg _ _ r => [r]
+  | SIf _ _ _ _ b | SLoop _ _ _ _ _ b | SForeach _ _ _ b | SEpr _ b => regs_block b
+  | SLoopUntil _ _ b _ _ cl => regs_block b ++ regs_block cl
+  | _ => []
+  end
+with regs_block (b : block) : list nat :=
+  match b with BNil => [] | BCons s r => regs_stmt s ++ regs_block r end.
+
+Fixpoint regs_per_flush (b : block) (acc : list nat) : list (list nat) :=
+  match b with
+  | BNil => []
+  | BCons SFlush r => acc :: regs_per_flush r []
+  | BCons s r => regs_per_flush r (acc ++ regs_stmt s)
+  end.
+
+(* some measurement into a register future of a block was not reached when the block
+   ran: the emitted ret_reg then reads a register that was never written *)
+Fixpoint unreached_reg (rs : list (list nat)) (sns : list snapshot) : bool :=
+  match rs, sns with
+  | r :: rs', sn :: sns' =>
+      existsb (fun k => match alookup k (snd sn) with Some _ => false | None => true end) r
+      || unreached_reg rs' sns'
+  | _, _ => false
+  end.
+
 (* 0 = agrees; otherwise the first part that differs *)
 Definition check_bcase (c : bcase) : Z :=
   match eval_prog (b_prog c) (b_script c) with
   | None => 1                                   (* the spec gives the program no meaning (generator bug) *)
   | Some e =>
       let o := observe e in
-      if negb (b_ok c) then 2                   (* the implementation failed on a meaningful program *)
+      if negb (b_ok c) then                     (* the implementation failed on a meaningful program *)
+        (if unreached_reg (regs_per_flush (b_prog c) []) (o_snaps o) then 6 else 2)
       else if negb (list_eqb tev_dec (o_trace o) (b_trace c)) then 3
       else if negb (check_flushes (o_snaps o) (b_flushes c)) then 4
       else if negb (list_eqb arr_dec (o_arrays o) (b_final c)) then 5
